@@ -68,6 +68,7 @@ class Engine(ExprMixin, StmtMixin, CallMixin):
         self.contracts_used = set()
         self.strlits = {}
         self.feas_cache = {}
+        self.bound_cache = {}
         self.cur_line = None
         self.paths_done = 0
         self.stats = {'paths': 0, 'pruned': 0}
@@ -243,6 +244,13 @@ class Engine(ExprMixin, StmtMixin, CallMixin):
         self.st.mem.setdefault(r.id, arr)
         return r
 
+    def select(self, arr, idx):
+        """array read; at a literal index the read is resolved through stores / lambdas right away"""
+        i = z3.simplify(idx)
+        if z3.is_bv_value(i):
+            return z3.simplify(z3.Select(arr, i))
+        return z3.Select(arr, idx)
+
     def alive_check(self, region, what, node=None):
         root = region.root
         if root.heap and root.id in self.st.dead:
@@ -326,6 +334,49 @@ class ClauseCtx:
     def is_funcptr(self, v):
         return isinstance(v, FuncPtr)
 
+    def upper_bound(self, term, mx):
+        """largest value <= mx that `term` can take under the ENTRY facts of the function under verification (sound for
+        every later state as long as the term only mentions entry symbols, which is checked)"""
+        eng = self.eng
+        t = z3.simplify(term)
+        if z3.is_bv_value(t):
+            return min(mx, t.as_long())
+        entry = eng.frames[0].entry
+        if entry is None:
+            return mx
+        key = (t.get_id(), mx)
+        cache = eng.bound_cache
+        if key in cache:
+            return cache[key]
+        # only entry symbols: uninterpreted constants created before the body ran (no '!' in the name)
+        todo = [t]
+        seen = set()
+        ok = True
+        while todo and ok:
+            x = todo.pop()
+            if x.get_id() in seen:
+                continue
+            seen.add(x.get_id())
+            if z3.is_const(x) and x.decl().kind() == z3.Z3_OP_UNINTERPRETED and '!' in x.decl().name():
+                ok = False
+            todo.extend(x.children())
+        res = mx
+        if ok:
+            s = z3.Solver()
+            s.set('timeout', 2000)
+            s.add(*entry.pc)
+            lo, hi = 0, mx           # invariant: term <= hi is known
+            if s.check(z3.UGT(t, z3.BitVecVal(mx, t.size()))) == z3.unsat or True:
+                while lo < hi:
+                    mid = (lo + hi) // 2
+                    if s.check(z3.UGT(t, z3.BitVecVal(mid, t.size()))) == z3.unsat:
+                        hi = mid
+                    else:
+                        lo = mid + 1
+                res = hi
+        cache[key] = res
+        return res
+
     def null(self):
         return NULL
 
@@ -363,7 +414,7 @@ class ClauseCtx:
         if r.kind == 'arr':
             if r.id not in mem:
                 raise ClauseError('region %s does not exist in the %s state' % (r.name, 'old' if old else 'current'))
-            return TV(z3.Select(mem[r.id], p.off + idx), False)
+            return TV(self.eng.select(mem[r.id], p.off + idx), False)
         if r.kind == 'cell' and r.ct.kind == 'int':
             return TV(mem[r.id], r.ct.signed)
         raise ClauseError('subscript into %s region' % r.kind)
